@@ -141,6 +141,10 @@ fn main() {
                 }
             } }
         }
+        "probe-c19max" => {
+            std::panic::set_hook(Box::new(|_| {}));
+            for which in 0..2u8 { println!("which={which}: {}", akd::vx_export::c19_counter_at_max::<akd_core::WhatsAppV1Configuration>(which)); }
+        }
         "probe-c12c" => {
             for cache in [false, true] {
                 let r = rt.block_on(akd::vx_export::c12_overtaken_at_commit::<akd_core::WhatsAppV1Configuration>(cache));
